@@ -38,6 +38,7 @@ def ser_impls(facts):
 
 
 def run(ctx):
+    cover(ctx, ctx.facts())
     facts = ctx.facts()
     table(ctx, facts)
     decoders(ctx, facts)
@@ -247,3 +248,232 @@ def codecs(ctx, facts):
                     okv = hi[2][0] == "bin" and hi[2][1] == "Add" and ("const", 1) in (hi[2][2], hi[2][3]) and str(hi[2][2]) == str(lo[2]) or (hi[2][0] == "bin" and str(lo[2]) in str(hi[2]))
         alloc = any((F.callee(t)[0] or "").endswith("from_elem") and "USIZE" in str(flow.expr_of(vb, t["args"][1])) for _, t in vb.calls())
         ctx.ob("FIELDS-codec", "vec-result-layout", okv and alloc, "row i is serialized into [i*Size, (i+1)*Size) of a len*Size buffer" if okv and alloc else "result rows are not laid out at stride Size", site_of(vb))
+
+
+# ---------------------------------------------------------------------------------------------
+TRUNC = re.compile(r"Iterator::(take|skip|step_by|take_while|skip_while|nth|rev|filter|filter_map|last|find|position|peekable|fuse|chain|cycle)$")
+SER_BODY = re.compile(r"(as ff::Serializable>|<impl ff::Serializable for .*>)::(serialize|deserialize)$")
+
+
+def _walk(e):
+    if isinstance(e, tuple):
+        yield e
+        for x in e[1:]:
+            if isinstance(x, tuple):
+                if x and isinstance(x[0], str):
+                    yield from _walk(x)
+                else:
+                    for y in x:
+                        yield from _walk(y)
+
+
+def _is_buf(e, argn):
+    e = flow.strip_casts(e)
+    while e[0] == "call" and re.search(r"(Deref::deref|DerefMut::deref_mut|AsRef::as_ref|AsMut::as_mut|as_slice|as_mut_slice)$", e[1]) and e[2]:
+        e = flow.strip_casts(e[2][0])
+    return e == ("arg", argn)
+
+
+def _array_len(tys):
+    for ty in tys:
+        m = re.search(r"; (\d+)\]", ty or "") or re.search(r"StdArray<\w+, (\d+)>", ty or "")
+        if m:
+            return int(m.group(1))
+    return None
+
+
+def _single_array_len(b):
+    """length shared by all array-typed locals of the body (None if there are none or they disagree)"""
+    ls = set()
+    for l in range(len(b.locals)):
+        m = re.match(r"^&?(mut )?\[.*; (\d+)\]$", b.local_ty(l) or "")
+        if m:
+            ls.add(int(m.group(2)))
+    return ls.pop() if len(ls) == 1 else None
+
+
+def _mentions_arg(b, argn):
+    txt = []
+    for bb in b.live_blocks():
+        for st in b.stmts(bb):
+            txt.append(st)
+        txt.append(b.term(bb))
+    import json
+    blob = json.dumps(txt)
+    return re.search(r'"(cp|mv)": \[%d[\],]' % argn, blob) is not None or re.search(r'"p": \[%d[\],]' % argn, blob) is not None
+
+
+def cover(ctx, facts):
+    """Every composite encoder/decoder touches all `Size` bytes of its buffer: explicit byte ranges tile [0, Size);
+    loop-indexed ranges are [sz*i, sz*(i+1)) for i in 0..L with L the element count; iterator pipelines over the whole
+    buffer contain no truncating / reordering adapter (take(k) only with k >= element count)."""
+    from vlib import bounds
+    ctx.rule("COVER: in every Serializable::{serialize,deserialize} body the buffer is consumed completely - constant ranges tile [0,Size), loop ranges are sz*i..sz*(i+1) over 0..L, whole-buffer iterator pipelines have no take/skip/step_by/rev/filter (take(k) only if k >= number of elements)")
+    sizes = {}
+    for im in facts.impls:
+        if im.get("trait") == "ff::Serializable":
+            for it in im["items"]:
+                if it["name"] == "Size" and it.get("usize"):
+                    sizes[im["self"]] = int(it["usize"])
+    n = 0
+    for b in sorted(facts.non_test_bodies(), key=lambda x: x.path):
+        m = SER_BODY.search(b.path)
+        if not m or not b.file.startswith("ipa-core/"):
+            continue
+        which = m.group(2)
+        argn = 1 if which == "deserialize" else 2
+        self_ty = re.sub(r"^<| as ff::Serializable>::\w+$", "", b.path) if b.path.startswith("<") else re.sub(r"^.*<impl ff::Serializable for (.*)>::\w+$", r"\1", b.path)
+        size = sizes.get(self_ty)
+        name = f"{short_ty(self_ty)}::{which}"
+        tree = [x for x in facts.tree(b.root) if x.path == b.path or x.path.startswith(b.path + "::{closure")]
+        ctx.count(bodies=len(tree))
+        n += 1
+        # 1. truncating adapters anywhere in the body or its closures
+        for x in tree:
+            for bb, t in x.calls():
+                fn = F.callee(t)[0] or ""
+                if not TRUNC.search(fn):
+                    continue
+                ad = fn.split("::")[-1]
+                ok, why = False, f"`{ad}` in a wire codec drops or reorders elements"
+                if ad == "take":
+                    k = flow.fold(flow.strip_casts(flow.expr_of(x, t["args"][1])))
+                    recv = flow.expr_of(x, t["args"][0])
+                    L = None
+                    for node in _walk(recv):
+                        if node[0] in ("place", "arg", "upvar"):
+                            pass
+                    tys = [x.local_ty(l) for l in range(len(x.locals))]
+                    # element count: array type being iterated, else Size / chunk size
+                    for node in _walk(recv):
+                        if node[0] == "call" and re.search(r"(iter|iter_mut|into_iter)$", node[1]) and node[2]:
+                            inner = flow.strip_casts(node[2][0])
+                            if inner[0] == "place":
+                                L = _array_len([x.local_ty(inner[1])])
+                            elif inner[0] == "arg":
+                                L = _array_len([x.local_ty(inner[1])])
+                        if node[0] == "call" and re.search(r"chunks(_exact|_mut|_exact_mut)?$", node[1]) and size and len(node[2]) > 1:
+                            c = flow.strip_casts(node[2][1])
+                            if c[0] == "const" and isinstance(c[1], int) and c[1]:
+                                L = size // c[1]
+                    if L is None:
+                        L = _single_array_len(x)
+                    if L is None:
+                        L = _array_len([x.locals[0]["ty"], self_ty])
+                    if k[0] == "const" and isinstance(k[1], int) and L is not None and k[1] >= L:
+                        ok, why = True, f"take({k[1]}) >= {L} elements"
+                    else:
+                        why = f"take({k[1] if k[0] == 'const' else '?'}) over {L if L is not None else 'an unknown number of'} elements: the last element(s) are never encoded/decoded (round trip and range validation lost for them)"
+                ctx.ob("COVER", f"{name}:{ad}", ok, why, site_of(x, bb))
+        # 2./3. reads of the buffer
+        const_ranges, loop_ranges, whole = [], [], 0
+        for x in tree:
+            if x.path != b.path:
+                continue
+            for bb, t in x.calls():
+                fn = F.callee(t)[0] or ""
+                if not t["args"]:
+                    continue
+                a0 = flow.expr_of(x, t["args"][0])
+                if re.search(r"Index(Mut)?::index(_mut)?$", fn) and _is_buf(a0, argn):
+                    ie = flow.expr_of(x, t["args"][1])
+                    if ie[0] == "agg" and isinstance(ie[1], tuple) and ie[1][0].startswith("std::ops::Range"):
+                        kind = ie[1][0].split("::")[-1]
+                        ops = ie[2]
+                        lo = ops[0] if kind in ("Range", "RangeFrom", "RangeInclusive") else ("const", 0)
+                        hi = ops[-1] if kind in ("Range", "RangeTo") else (None if kind == "RangeFrom" else ops[-1])
+                        if kind == "RangeFull":
+                            whole += 1
+                        elif "Iterator::next" in str(ie):
+                            loop_ranges.append((bb, lo, hi, x))
+                        else:
+                            const_ranges.append((bb, lo, hi, x))
+                    else:
+                        const_ranges.append((bb, ie, ("bin", "Add", ie, ("const", 1)), x))
+                elif any(_is_buf(flow.expr_of(x, a), argn) for a in t["args"]) and not re.search(r"(Deref::deref|DerefMut::deref_mut|AsRef::as_ref|AsMut::as_mut)$", fn):
+                    whole += 1
+            # plain moves/copies of the whole buffer (e.g. `*buf = ..` or `(*buf).into()` handled as calls above)
+            for bb, idx, st in x.iter_assigns():
+                p_ = st["p"]
+                if p_[0] == argn and p_[1:] == ["*"]:
+                    whole += 1
+        if loop_ranges:
+            bb, lo, hi, x = loop_ranges[0]
+            rng = [nd for nd in _walk(lo) if nd[0] == "agg" and isinstance(nd[1], tuple) and nd[1][0] == "std::ops::Range"]
+            L = _array_len([self_ty, x.locals[0]["ty"]] + [x.local_ty(l) for l in range(1, min(len(x.locals), 12))])
+            okr = bool(rng) and rng[0][2][0] == ("const", 0) and rng[0][2][1][0] == "const" and L is not None and rng[0][2][1][1] == L
+            if not rng and "Iterator::enumerate" in str(lo):
+                # index from enumerate() over the element array itself: the count is the array's length (take(k) is judged separately)
+                Le = None
+                for nd in _walk(lo):
+                    if nd[0] == "call" and re.search(r"(iter|iter_mut|into_iter)$", nd[1]) and nd[2]:
+                        inner = flow.strip_casts(nd[2][0])
+                        if inner[0] in ("place", "arg"):
+                            Le = _array_len([x.local_ty(inner[1])])
+                if Le is None:
+                    Le = _single_array_len(x)
+                okr = Le is not None and Le == L
+            ctx.ob("COVER", f"{name}:loop-count", okr, f"loop runs over 0..{L}" if okr else f"the element loop does not run over 0..{L} (element count of the type): trailing elements are never encoded/decoded", site_of(x, bb))
+            i = [nd for nd in _walk(lo) if nd[0] == "proj" and "Iterator::next" in str(nd)]
+            iv = i[0] if i else None
+            lo_, hi_ = flow.strip_casts(lo), flow.strip_casts(hi)
+            def mul_of(e, j):
+                return e[0] == "bin" and e[1] == "Mul" and (flow.strip_casts(e[2]) == j or flow.strip_casts(e[3]) == j)
+            oks = iv is not None and mul_of(lo_, iv) and hi_[0] == "bin" and hi_[1] == "Mul" and any(flow.strip_casts(z) == ("bin", "Add", iv, ("const", 1)) for z in (hi_[2], hi_[3]))
+            if oks:
+                sz_lo = flow.strip_casts(lo_[3]) if flow.strip_casts(lo_[2]) == iv else flow.strip_casts(lo_[2])
+                sz_hi = flow.strip_casts(hi_[3]) if flow.strip_casts(hi_[2]) == ("bin", "Add", iv, ("const", 1)) else flow.strip_casts(hi_[2])
+                oks = sz_lo == sz_hi
+            ctx.ob("COVER", f"{name}:loop-stride", oks, "element i occupies bytes sz*i..sz*(i+1)" if oks else "the per-element byte range is not sz*i..sz*(i+1): elements overlap or leave gaps", site_of(x, bb))
+        elif const_ranges:
+            rs = []
+            for bb, lo, hi, x in const_ranges:
+                rs.append((bounds.lin_of(lo), None if hi is None else bounds.lin_of(hi), bb, x))
+            co = bounds.ConstOrder(facts)
+            # order: start at 0, then chain by equality of hi_k and lo_{k+1}
+            chain, cur, used = [], bounds.Lin(None, 0), set()
+            progress = True
+            while progress:
+                progress = False
+                for k, (lo, hi, bb, x) in enumerate(rs):
+                    if k in used:
+                        continue
+                    if lo.sym == cur.sym and lo.off == cur.off:
+                        used.add(k)
+                        chain.append(k)
+                        cur = hi
+                        progress = cur is not None
+                        break
+            gaps = [k for k in range(len(rs)) if k not in used]
+            end_ok = cur is None or (size is not None and cur.sym is None and cur.off == size) or (size is None and cur is not None and False)
+            if cur is not None and size is None:
+                end_ok = True   # generic Size: the end bound is symbolic, type-level
+            ok = not gaps and end_ok
+            x0 = rs[0][3]
+            ctx.ob("COVER", f"{name}:ranges-tile-buffer", ok, f"{len(rs)} byte ranges tile [0, {size if size is not None else 'Size'})" if ok else (f"byte ranges of the buffer do not tile it: {'a range does not start where the previous one ended' if gaps else 'the last range ends at ' + repr(cur) + ' but Size is ' + str(size)} (bytes never written/read, or read twice)"), site_of(x0, rs[gaps[0]][2] if gaps else rs[-1][2]))
+        elif whole or _mentions_arg(b, argn):
+            ctx.ob("COVER", f"{name}:whole-buffer", True, "the buffer is handed over / assigned as a whole (no partial ranges)", site_of(b))
+        else:
+            ok = size == 0
+            ctx.ob("COVER", f"{name}:whole-buffer", ok, "zero-sized" if ok else f"{which} never touches its buffer", site_of(b))
+    ctx.floor("COVER", "Serializable bodies", n, 80)
+    # array types: Size == element count * element Size (zip(self, chunks(sz)) silently stops at the shorter side)
+    na = 0
+    for b in facts.non_test_bodies():
+        m = re.search(r"<impl ff::Serializable for (.*)>::deserialize$", b.path)
+        if not m:
+            continue
+        self_ty = m.group(1)
+        am = re.search(r"\[([\w:]+); (\d+)\]", b.locals[0]["ty"])
+        if not am or self_ty not in sizes:
+            continue
+        na += 1
+        elem = sizes.get(am.group(1))
+        L = int(am.group(2))
+        ok = elem is not None and sizes[self_ty] == elem * L
+        ctx.ob("COVER", f"{short_ty(self_ty)}:size-is-count-times-element", ok, f"Size {sizes[self_ty]} = {L} x {elem}" if ok else f"declared Size {sizes[self_ty]} is not {L} elements x {elem} bytes: the zip over (elements, chunks) stops early or the conversion to the array panics", site_of(b))
+    ctx.floor("COVER", "array codecs", na, 3)
+
+
+def short_ty(t):
+    return re.sub(r"\b(\w+::)+", "", t)[:70]
